@@ -655,10 +655,6 @@ package transport
 //@   ensures err == nil ==> bytes(b[836:852]) == shMac(old(hs.duplex.gh_tr), bytes(b[0:4]), kemShared(kemPubOf(ref(hs.kem.ephemeral.Public)), bytes(b[4:772])), bytes(b[772:836]))
 //@   ensures err == nil ==> b[0] == 2 && b[1] == 0 && b[2] == 0 && b[3] == 0 && bytes(hs.cookie) == bytes(b[772:836])
 
-//@ func (n certs.Name) WriteTo(w io.Writer) (k int64, err error)
-//@   assume name encoding (C18 covers it); writes only to w
-//@   modifies opaque(w)
-
 //@ func (hs *HandshakeState) EncryptSNI(dst []byte, name certs.Name) (err error)
 //@   property C10 C02
 //@   requires cyclistOK(hs.duplex) && hs.duplex.mode == cyclist.Key && len(dst) >= 256
